@@ -454,7 +454,12 @@ func runCase(o *drv.Out, ci int, nBlocks int, maxClones int) {
 			mu.Unlock()
 			o.Count("history:rollback")
 		case "reopen":
-			// graceful stop and start on the same file system
+			// graceful stop and start on the same file system. No crash clones are taken while the database
+			// is being closed and opened: a crash inside pebble's own shutdown/start-up sequence (manifest
+			// rotation) is pebble's recovery, not the block commit this harness samples.
+			mu.Lock()
+			armed = false
+			mu.Unlock()
 			if e := n.s.Close(); e != nil {
 				o.Fail("C09:close-failed", e.Error(), replay)
 				return
@@ -468,6 +473,9 @@ func runCase(o *drv.Out, ci int, nBlocks int, maxClones int) {
 				return
 			}
 			o.Count("history:graceful-restart")
+			mu.Lock()
+			armed = true
+			mu.Unlock()
 			if got := int(n.s.Version()); got != cur.version {
 				b := len(rec.snaps) - 1
 				if stale, rb := rec.staleAfterRollback(got, b); stale {
